@@ -348,6 +348,12 @@ def run(prop, tier, seed, replay=None):
         except Exception:
             pass
 
+    # an ambiguity band must stay a narrow exception: if it swallows more than a small share of the
+    # cases the comparison is no longer a comparison (default ceiling 8 %, a property may set its own)
+    amb_max = float(getattr(prop, "AMBIGUOUS_MAX_FRACTION", 0.08))
+    if cases and ambiguous > amb_max * len(cases) and ambiguous > 5:
+        mism.append((0, "ambiguity band too wide: %d of %d cases were counted ambiguous (ceiling %.0f %%)" % (
+            ambiguous, len(cases), 100 * amb_max)))
     # static ties (e.g. C18: no zone-dependent API is called) are part of the correspondence
     static_fail = list(prop.static_checks(REPO)) if hasattr(prop, "static_checks") else []
 
